@@ -350,6 +350,43 @@ pub fn gen_c12(run: &mut Run, seed: u64, thorough: bool) {
                 t.run.op(&format!("tk.balance {}", c.tok()), "q");
             }
         }
+        // LONG-lived allowances (weeks): re-approved with a later expiration while still live, then the ledger moves past the first
+        // expiration — the allowance is the one granted last; and an allowance of exactly i128::MAX / MAX-1 is used up like any other
+        for (k, (first, second)) in [(345_600u32, 691_200u32), (241_920, 241_921), (241_921, 483_842), (1_000_000, 2_000_000), (20, 345_600)].iter().enumerate() {
+            t.run.scenario("tk", &format!("c12-long-allowance-{k}"));
+            t.set_seq(50);
+            t.run.op(&format!("tk.new {} {} - {} {} {} 7 {maxlive0}", t.tk.tok(), t.owner.tok(), hex::encode([7u8; 32]), hx(b"T"), hx(b"T")), "construct");
+            let (a, b, c) = (Addr::c(10), Addr::c(11), Addr::c(12));
+            t.run.op(&format!("tk.mint {} 1000 {}", a.tok(), t.owner.tok()), "seed-mint");
+            t.run.op(&format!("tk.approve {} {} 500 {} {}", a.tok(), b.tok(), 50 + first, a.tok()), "approve-long-first");
+            t.set_seq(60);
+            t.run.op(&format!("tk.approve {} {} 500 {} {}", a.tok(), b.tok(), 50 + second, a.tok()), "approve-long-later-expiration");
+            for s in [50 + first - 1, 50 + first, 50 + first + 1, 50 + first + 17, 50 + second, 50 + second + 1] {
+                // in every other scenario nothing touches the allowance before the FIRST expiration has passed
+                if s < 60 || (k % 2 == 0 && s <= 50 + first) {
+                    continue;
+                }
+                t.set_seq(s);
+                t.run.op(&format!("tk.allowance {} {}", a.tok(), b.tok()), "q-long-allowance");
+                t.run.op(&format!("tk.transfer_from {} {} {} 1 {}", b.tok(), a.tok(), c.tok(), b.tok()), "transfer_from-long-allowance");
+                t.run.op(&format!("tk.balance {}", a.tok()), "q");
+            }
+        }
+        for (k, amt) in [i128::MAX, i128::MAX - 1, (1i128 << 64), i128::MAX - (1i128 << 64)].iter().enumerate() {
+            t.run.scenario("tk", &format!("c12-huge-allowance-{k}"));
+            t.set_seq(50);
+            t.run.op(&format!("tk.new {} {} - {} {} {} 7 {maxlive0}", t.tk.tok(), t.owner.tok(), hex::encode([7u8; 32]), hx(b"T"), hx(b"T")), "construct");
+            let (a, b, c) = (Addr::c(10), Addr::c(11), Addr::c(12));
+            t.run.op(&format!("tk.mint {} 1000 {}", a.tok(), t.owner.tok()), "seed-mint");
+            t.run.op(&format!("tk.approve {} {} {amt} 500 {}", a.tok(), b.tok(), a.tok()), "approve-huge");
+            for spend in [5i128, 0, 7, 988, 1] {
+                t.run.op(&format!("tk.transfer_from {} {} {} {spend} {}", b.tok(), a.tok(), c.tok(), b.tok()), "transfer_from-huge-allowance");
+                t.run.op(&format!("tk.allowance {} {}", a.tok(), b.tok()), "q-huge-allowance");
+                t.run.op(&format!("tk.burn_from {} {} 1 {}", b.tok(), a.tok(), b.tok()), "burn_from-huge-allowance");
+                t.run.op(&format!("tk.allowance {} {}", a.tok(), b.tok()), "q-huge-allowance");
+                t.run.op(&format!("tk.balance {}", a.tok()), "q");
+            }
+        }
         // constructor metadata validation
         for (i, (name, symb, dec)) in [(b"T".to_vec(), b"T".to_vec(), 255u32), (b"T".to_vec(), b"T".to_vec(), 256), (vec![], b"T".to_vec(), 7), (b"T".to_vec(), vec![], 7), (b"T".to_vec(), b"T".to_vec(), 0)].iter().enumerate() {
             t.run.scenario("tk", &format!("c12-ctor-{i}"));
